@@ -12,6 +12,7 @@ DECIDING = ["contract:partial_trace", "O2:compose", "O2:product", "O2:trace-pres
             "O4:cvxpy-value"]
 RULE = ("cases = (local dims in 1..4, n<=5, N<=144) x every non-empty subset S (all listing orders for |S|<=3, n<=4) x dtype; "
         "entries unique ids; a signature is (monitor, n, |S|, non-uniform dims?) and is non-trivial when S is a proper subset")
+CASE_TIMEOUT = {"quick": 240, "thorough": 3000}
 ASSUMPTIONS = [
     "reference model = einsum contraction of the (d..., d...) tensor; exact for integer dtype, 1e-9 relative otherwise",
     "cvxpy: only Variable operands are accepted by the library; .value of the returned expression is compared on an assigned value",
@@ -37,6 +38,8 @@ def cases(tier):
         out.append(("forms", r))
     for r in range(40 if tier == "quick" else 800):
         out.append(("cvx", r))
+    if tier == "thorough":
+        out.append(("suite", 0))
     return out
 
 
@@ -183,3 +186,10 @@ def _run_cvx(ctx, spec, rng):
     if num is not FAILED and got is not None:
         ctx.check("O4:cvxpy=numeric", None, dev=float(np.abs(np.asarray(got) - num).max()) / (1 + big), tol=1e-9, sig=(kind,),
                   mech="partial_trace:cvxpy-vs-numeric", detail={"kind": kind, "d": d, "s": s})
+
+
+def _run_suite(ctx, spec, rng):
+    """Thorough tier: the repository's own tests executed with this property's contracts attached (internal calls observed)."""
+    from ..suiterun import run_suite_under_contract
+
+    run_suite_under_contract(ctx, ['partial_trace', 'permute_systems'], "suite-under-contract")
